@@ -178,6 +178,10 @@ class Source:
             if attr(n, "hedId") is not None:
                 pos.append(("hed-id-out-of-range", f"tag {nm}",
                             on_node(i, lambda r, node: (set_attr(node, "hedId", "HED_0000001"), name_of(r, node))[1]), ("Tags", d)))
+                # the id whose number is zero is as far out of range as any other
+                pos.append(("hed-id-out-of-range", f"tag {nm} (zero)",
+                            on_node(i, lambda r, node: (set_attr(node, "hedId", "HED_0000000"), name_of(r, node))[1]),
+                            ("Tags", d, "zero")))
                 pos.append(("hed-id-malformed", f"tag {nm}",
                             on_node(i, lambda r, node: (set_attr(node, "hedId", "HED_12x45"), name_of(r, node))[1]), ("Tags", d)))
                 old = attr(n, "hedId").findtext("value")
@@ -259,6 +263,9 @@ class Source:
             if attr(e, "hedId") is not None and own:
                 pos.append(("hed-id-out-of-range", f"{kind} {nm}",
                             on_sec(ug, i, lambda r, el: (set_attr(el, "hedId", "HED_0000001"), el.findtext("name"))[1]), (kind, 0)))
+                pos.append(("hed-id-out-of-range", f"{kind} {nm} (zero)",
+                            on_sec(ug, i, lambda r, el: (set_attr(el, "hedId", "HED_0000000"), el.findtext("name"))[1]),
+                            (kind, 0, "zero")))
                 pos.append(("hed-id-changed", f"{kind} {nm}", on_sec(ug, i, self.changed_id), (kind, 0)))
             if e.tag == "unitClassDefinition":
                 # a second definition of the class: name only / name + description / verbatim copy
